@@ -1307,6 +1307,22 @@ func (g *Gen) stableComps() map[string]bool {
 	}
 	for i, e := range g.fc.Stable {
 		env := &Env{g: g, st: g.entry, old: g.entry, vars: g.entryParams, pkgPath: g.fn.Pkg.Pkg.Path()}
+		if c, ok := e.(*Call); ok && c.Fun == "mapof" && len(c.Args) == 1 {
+			// stable mapof(m): the components of m's map type
+			g.dryFacts++
+			mv := env.eval(c.Args[0])
+			g.dryFacts--
+			if _, ve, ok := g.mapKeys(mv.T); ok {
+				tk := typeKey(mv.T)
+				g.stableKeys["MD|"+tk] = true
+				g.stableKeys["ML|"+tk] = true
+				for _, l := range g.W.shapes.shape(ve) {
+					g.stableKeys["MV|"+tk+"|"+l.Path] = true
+				}
+				g.note("map contents assumed not to be written by opaque callees: " + g.fc.StableSrc[i])
+				continue
+			}
+		}
 		if c, ok := e.(*Call); ok && c.Fun == "elems" && len(c.Args) == 1 {
 			// stable elems(x): the element components of x's element type
 			g.dryFacts++
